@@ -48,8 +48,63 @@ def mk(tname, **kw):
         i = I.RegexInput("x", "[0-9]{5}")
     elif tname == "enum":
         i = I.EnumInput("x", E.taxpayer_spouse_or_both, allow_empty=kw.get("blank", False))
+    if kw.get("bare"):
+        return i            # (a real Form initialises its inputs itself)
     i.__form_init__(FakeForm())
     return i
+
+
+def through_solver(tname, s, work, blank=False):
+    """the text in an input FILE, read by a line of a real form through the real Solver WITH a prompt installed (the user refuses every
+    question): rejected text must stop the solve as invalid -- never be asked for as if it were missing, never be skipped"""
+    from habutax import inputs as I
+    from habutax.fields import IntegerField
+    from habutax.form import Form
+    from habutax.solver import Solver
+    spec = mk(tname, blank=blank)
+    rec = {"t": tname, "s": codes(s), "supplied": True, "via": "solver", "outcome": "", "vtype": "", "ival": 0, "cents": 0, "finite": True, "text": [],
+           "members": [codes(m) for m in spec.enum.__members__] if tname == "enum" else [], "blankOk": bool(blank)}
+    seen = {}
+
+    class OneInput(Form):
+        form_name = "t"
+        tax_year = 1971
+        description = "one input, one line"
+        long_description = "generated"
+
+        def __init__(self, **kwargs):
+            def line(s_, i, v):
+                seen["v"] = i["x"]
+                return 1
+            super().__init__(OneInput, [mk(tname, blank=blank, bare=True)], [IntegerField("1", line)], [], **kwargs)
+
+        def needs_filing(self, values):
+            return False
+    path = os.path.join(work, "in_solver.habutax")
+    with open(path, "w", encoding="utf-8") as f:
+        f.write("[t]\nx = %s\n" % s)
+    asked = []
+
+    def prompt(missing, needed_by):
+        asked.append(missing.name())
+        return (None, False)
+    try:
+        solver = Solver(I.InputStore(path, {}), [OneInput], prompt=prompt)
+        ok = solver.solve(["t"])
+        if "t.x" in asked or "t.x" in solver.unmet_input_dependencies():
+            rec["outcome"] = "missing"
+        elif ok and "v" in seen:
+            rec["outcome"] = "value"
+            observe_value(tname, seen["v"], rec)
+        else:
+            rec["outcome"] = "error:skipped"        # neither a value, nor invalid, nor missing: the line was passed over
+    except I.InvalidInput:
+        rec["outcome"] = "invalid"
+    except I.MissingInput:
+        rec["outcome"] = "missing"
+    except Exception as e:      # noqa
+        rec["outcome"] = "error:" + type(e).__name__
+    return rec
 
 
 def observe_value(tname, v, rec):
@@ -122,6 +177,9 @@ def through_store(tname, s, via, work, blank=False):
     except I.MissingInput:
         rec["outcome"] = "missing"
     except Exception as e:      # noqa
+        if os.environ.get("HV_DEBUG"):
+            import traceback
+            traceback.print_exc()
         rec["outcome"] = "error:" + type(e).__name__
     return rec
 
@@ -213,8 +271,10 @@ def c11(tier):
                         vias.append("file")
                     if tier == "quick" and len(texts) > 3000:
                         vias = [vias[hash(s) % len(vias)]] if len(s) > 2 else vias
+                    if "file" in vias and (len(texts) <= 3000 or hash(s) % 4 == 0 or len(s) <= 2):
+                        vias.append("solver")
                     for via in vias:
-                        r = through_store(tname, s, via, work, blank=blank)
+                        r = through_solver(tname, s, work, blank=blank) if via == "solver" else through_store(tname, s, via, work, blank=blank)
                         if via == "file":
                             # the INI reader strips the text itself; the classification is of what the store was given
                             pass
